@@ -34,8 +34,8 @@ import (
 )
 
 const c26Rule = "block tree of 2-14 blocks (forks at any height incl. genesis, slot gaps that skip epochs, epoch length 2-4 slots) with NextEpochData/NextConfigData digests, " +
-	"at most one announcement per target epoch on any one ancestry; imported parent-first through AddBlock+HandleBABEDigest; mode 'free' (no finalisation, announcements at arbitrary blocks) or " +
-	"mode 'runtime' (every first block of an epoch announces, finalisations interleaved that visit every epoch of the finalised chain); GetEpochDataRaw/GetConfigData from every live block for every epoch vs a tree model; " +
+	"at most one announcement per target epoch on any one ancestry; imported parent-first through AddBlock+HandleBABEDigest; mode 'free' (announcements at arbitrary blocks) or " +
+	"mode 'runtime' (every first block of an epoch announces); in both modes finalisations of any live block are interleaved (SetFinalisedHash, FinalizeBABENextEpochData, FinalizeBABENextConfigData); GetEpochDataRaw/GetConfigData from every live block for every epoch vs a tree model; " +
 	"non-trivial = some queried (epoch, block) has that epoch announced (data or config) by a block on a competing fork (neither ancestor-or-self nor descendant of the querying block); distinct by the canonical history string"
 
 const c26Watchdog = 10 * time.Second
@@ -336,7 +336,14 @@ func c26Run(t c26T, c *c26Case, finalAfter map[int]int) {
 	labels := map[string]bool{"mode-" + c.mode: true}
 	nontrivial := false
 	lastFinal := 0
-	visited := map[uint64]bool{} // epochs in which a (non-genesis) block has been finalised
+	// What finalisation may legitimately have made unavailable (see NOTES.md "finalisation"): persisting the data of
+	// epoch E at a finalisation drops the in-memory announcements of all epochs <= E; an epoch <= E that was never
+	// persisted itself (finality skipped the epoch whose finalisation would have persisted it) is "lost": lookups of
+	// it are not judged, except that returned epoch data must still be the data of the own ancestry.
+	dataPers, cfgPers1, cfgPers2 := map[uint64]bool{}, map[uint64]bool{}, map[uint64]bool{}
+	var dataDel, cfgDel1, cfgDel2 uint64
+	lostData := func(e uint64) bool { return e <= dataDel && !dataPers[e] }
+	lostCfg := func(e uint64) bool { return (e <= cfgDel1 && !cfgPers1[e]) || (e <= cfgDel2 && !cfgPers2[e]) }
 	round := uint64(0)
 	maxEpoch := uint64(0)
 
@@ -386,10 +393,12 @@ func c26Run(t c26T, c *c26Case, finalAfter map[int]int) {
 						labels["data-on-own-and-other-fork"] = true
 					}
 					want := c26EpochData(a)
-					if r.err != nil {
+					if r.err != nil && lostData(e) {
+						labels["lookup-of-epoch-data-dropped-by-epoch-skipping-finality-not-judged"] = true
+					} else if r.err != nil {
 						t.Fatalf("GetEpochDataRaw(%d, b%d) failed: %v; want the data announced by b%d; history: %s", e, b, r.err, a, hist.String())
 					}
-					if r.data == nil || r.data.Randomness != want.Randomness || len(r.data.Authorities) != 1 || r.data.Authorities[0] != want.Authorities[0] {
+					if r.err == nil && (r.data == nil || r.data.Randomness != want.Randomness || len(r.data.Authorities) != 1 || r.data.Authorities[0] != want.Authorities[0]) {
 						t.Fatalf("GetEpochDataRaw(%d, b%d) = %+v; want the data announced by b%d (randomness %x); history: %s", e, b, r.data, a, want.Randomness[:2], hist.String())
 					}
 				}
@@ -401,8 +410,14 @@ func c26Run(t c26T, c *c26Case, finalAfter map[int]int) {
 			})
 			wantCfg := types.ConfigData{C1: 1, C2: 4, SecondarySlots: 1}
 			from := "genesis"
+			cfgNotJudged := false
 			for te := e; te >= 1; te-- {
 				if a := c.announcer(b, te, true); a >= 0 {
+					if lostCfg(te) {
+						cfgNotJudged = true
+						labels["lookup-of-config-dropped-by-epoch-skipping-finality-not-judged"] = true
+						break
+					}
 					nc := c26Config(a)
 					wantCfg = types.ConfigData{C1: nc.C1, C2: nc.C2, SecondarySlots: nc.SecondarySlots}
 					from = fmt.Sprintf("b%d (epoch %d)", a, te)
@@ -417,6 +432,9 @@ func c26Run(t c26T, c *c26Case, finalAfter map[int]int) {
 			}
 			if foreignC && c.announcer(b, e, true) < 0 {
 				labels["config-only-on-other-fork=>fallback"] = true
+			}
+			if cfgNotJudged {
+				continue
 			}
 			if r.err != nil {
 				t.Fatalf("GetConfigData(%d, b%d) failed: %v; want the configuration of %s; history: %s", e, b, r.err, from, hist.String())
@@ -467,25 +485,13 @@ func c26Run(t c26T, c *c26Case, finalAfter map[int]int) {
 		queryFrom(i)
 
 		pick, doFinal := finalAfter[i]
-		if !doFinal || c.mode != "runtime" {
+		if !doFinal {
 			continue
 		}
-		// candidates: live strict descendants of the last finalised block such that every epoch
-		// present on the chain below the candidate's own epoch has already had a finalised block
-		// (finality notifications that never skip a whole epoch of the chain)
+		// candidates: every live strict descendant of the last finalised block, whatever lies above it
 		var cands []int
 		for x := 1; x <= i; x++ {
-			if x == lastFinal || !live(x) {
-				continue
-			}
-			ok := true
-			for y := c.blocks[x].parent; y > 0; y = c.blocks[y].parent {
-				if c.blocks[y].epoch < c.blocks[x].epoch && !visited[c.blocks[y].epoch] {
-					ok = false
-					break
-				}
-			}
-			if ok {
+			if x != lastFinal && live(x) {
 				cands = append(cands, x)
 			}
 		}
@@ -512,8 +518,35 @@ func c26Run(t c26T, c *c26Case, finalAfter map[int]int) {
 			labels["finalize-config-data-error"] = true
 		}
 		lastFinal = f
-		visited[c.blocks[f].epoch] = true
 		labels["finalised"] = true
+		{
+			ne := c.blocks[f].epoch + 1
+			// epoch data of ne is persisted iff an ancestor-or-self of f announced it
+			if !dataPers[ne] && c.announcer(f, ne, false) >= 0 {
+				dataPers[ne] = true
+				dataDel = max(dataDel, ne)
+				labels["finalisation-persists-epoch-data"] = true
+			} else if !dataPers[ne] {
+				labels["finalisation-before-the-next-epoch-announcement"] = true
+				for x := 1; x <= i; x++ {
+					if live(x) && x != f && c.blocks[x].epoch+1 == ne && (c.blocks[x].annData || c.blocks[x].annCfg) {
+						labels["finalisation-below-live-announcements-of-the-next-epoch"] = true
+					}
+				}
+			}
+			// config: the pinned code skips it when the epoch data of ne is in the database (it probes with
+			// epochDataKey); a corrected version persists whenever the finalised chain announced one. Both are allowed.
+			if c.announcer(f, ne, true) >= 0 {
+				if !dataPers[ne] && !cfgPers1[ne] {
+					cfgPers1[ne] = true
+					cfgDel1 = max(cfgDel1, ne)
+				}
+				if !cfgPers2[ne] {
+					cfgPers2[ne] = true
+					cfgDel2 = max(cfgDel2, ne)
+				}
+			}
+		}
 		for x := 1; x <= i; x++ {
 			if live(x) {
 				queryFrom(x)
@@ -541,7 +574,7 @@ func TestC26EpochDataOwnFork(t *testing.T) {
 	rapid.Check(t, func(t *rapid.T) {
 		c := c26GenCase(t)
 		finalAfter := map[int]int{}
-		if c.mode == "runtime" {
+		if c.mode == "runtime" || rapid.Bool().Draw(t, "freeFinal") {
 			for i := 1; i < len(c.blocks); i++ {
 				if rapid.IntRange(0, 3).Draw(t, "fin") == 0 {
 					finalAfter[i] = rapid.IntRange(0, 13).Draw(t, "finPick")
@@ -581,6 +614,12 @@ func TestC26Regressions(t *testing.T) {
 		// b1 announces a configuration for epoch 1; GetConfigData(1, b2) from the sibling b2
 		// must fall back to the genesis configuration (pinned tree: "hash not found in memory map").
 		c26Run(t, c26Fixed(2, "free", [][4]int{{0, 10, 0, 1}, {0, 20, 0, 0}}), nil)
+	})
+	t.Run("finalisation-below-announcements-on-two-live-forks", func(t *testing.T) {
+		// genesis - b1 - {b2(D C) - b3, b4 - b5}: b1 is finalised after everything is imported. Nothing on the
+		// finalised chain announces epoch 1, so nothing may be persisted: b4/b5 must still get an error for the
+		// epoch-1 data and the genesis configuration, b2/b3 the announcement of b2.
+		c26Run(t, c26Fixed(4, "free", [][4]int{{0, 10, 0, 0}, {1, 11, 1, 1}, {2, 12, 0, 0}, {1, 11, 0, 0}, {4, 12, 0, 0}}), map[int]int{5: 0})
 	})
 	t.Run("config-fallback-to-earlier-epoch-of-own-fork", func(t *testing.T) {
 		// own fork: b1 announces config for epoch 1, b3 (epoch 1) announces nothing;
